@@ -2,7 +2,7 @@
 (* C10, direction spec-encode -> carquet-decode, LZ4 block format.                          *)
 (* TLC enumerates sequence lists: literal lengths around the nibble / extension boundaries   *)
 (* (14, 15, 16, 15+254, 15+255, 15+255+1, 15+255+255), match lengths 4.. around 19, 274,     *)
-(* 529, offsets 1..65535 (overlapping copies, offset-1 runs), serialises them (Lz4.SerR) and  *)
+(* 529 and (HugeMl) 65040 +/-, 2^16, 2^17; offsets 1..65535 (overlapping copies, offset-1 runs), serialises them (Lz4.SerR) and  *)
 (* computes the expected output (Lz4.ApplyR). Each case is classified by the spec:            *)
 (*   strict = TRUE   the block obeys the whole format document: a decoder must accept it      *)
 (*   strict = FALSE  parsable, but breaks an end-of-block rule (those bind the compressor):   *)
@@ -11,7 +11,9 @@
 (* length extension, offset 0, offset beyond the output, destination too small.               *)
 EXTENDS Lz4, TLC, Json
 CONSTANTS Depth,      \* maximal number of sequences (incl. the literal-only last one)
-          FullDepth   \* number of leading sequences drawn from the full universe
+          FullDepth,  \* number of leading sequences drawn from the full universe
+          HugeMl      \* match lengths far beyond the boundary set (the format puts no upper limit on a match:
+                      \* 255-byte extension runs of any length), used for the first match only
 VARIABLE c
 
 Data(L, seed) == IF L <= 64 THEN B(Pat(L, seed)) ELSE F(L, seed, 0)
@@ -34,7 +36,7 @@ Next == /\ Len(c) < Depth
               /\ LET P    == OutLen(c)
                      full == Len(c) <= FullDepth
                  IN \E o \in {o \in (IF full THEN FullOff ELSE SmallOff) : o <= P},
-                       m \in (IF full THEN FullMl ELSE SmallMl),
+                       m \in (IF full THEN FullMl \cup (IF Len(c) = 1 THEN HugeMl ELSE {}) ELSE SmallMl),
                        L \in (IF full THEN LastLitsQ ELSE SmallLits) :
                        c' = Append([c EXCEPT ![Len(c)] = Sq(@.lit, o, m)], LastLits(Data(L, Len(c) + 1)))
 
@@ -72,8 +74,9 @@ BadBlocks(seqs) ==
 
 (* ---- emission ------------------------------------------------------------------------ *)
 Summary(s) == [lit |-> CLen(s.lit), off |-> s.off, ml |-> s.ml]
-WithBad == Len(c) <= 2
-Small == RLen(SerR(c)) <= 700
+Cheap == OutLen(c) <= 5000        \* huge matches: the block itself is judged, its derived invalid blocks are not
+WithBad == Len(c) <= 2 /\ Cheap
+Small == RLen(SerR(c)) <= 700 /\ Cheap
 SelfOk == Small =>
             LET d == Decode(Ser(c)) IN
             /\ d.ok /\ d.out = Flat(ApplyR(c)) /\ d.strict = EndRules(c)
